@@ -269,6 +269,23 @@ def run_case(case):
         elif max((lo - rl).max(), (rl - hi).max()) > tol:
             viol.append({"what": "result_depends_on_memory_layout", "layout": lname, "base": gkind, "shape": f.shape, "note": "outside the definition"})
 
+    # a stack of levels handed over whole (f and g of shape (levels, ny, nx)): the definition runs over ALL cells of what is handed over
+    if case["idx"] % 5 == 0:
+        nl3 = int(rng.integers(2, 4))
+        f3 = np.stack([make_field(rng, f.shape[0], f.shape[1], "random") for _ in range(nl3)])
+        g3 = rng.permutation(f3.size).reshape(f3.shape).astype(float) + rng.random()
+        try:
+            r3 = np.asarray(bldfm.get_source_area(f3, g3))
+            counters["get_source_area_calls"] += 1
+            counters["stack_checks"] = counters.get("stack_checks", 0) + 1
+            lo3, hi3 = brute_source_area(f3, g3)
+            t3 = 8 * f3.size * EPS * float(f3.sum())
+            if r3.shape != g3.shape or max((lo3 - r3).max(), (r3 - hi3).max()) > t3:
+                viol.append({"what": "rescaled_value_outside_definition", "field": "stack of levels", "base": "random tie-free", "shape": f3.shape,
+                             "excess": float(max((lo3 - r3).max(), (r3 - hi3).max())) if r3.shape == g3.shape else "shape"})
+        except Exception as e:  # noqa
+            viol.append({"what": "rescaled_value_outside_definition", "field": "stack of levels", "exc": repr(e)[:160], "shape": f3.shape})
+
     # ------------------------------------------------------------ percentile contour
     form = str(rng.choice(["2d_grid2d", "2d_grid1d", "3d_grid3d", "3d_grid2d"]))
     lvl = 0
@@ -286,6 +303,28 @@ def run_case(case):
             fld, grid = stack, (X3, Y3, Z3)
         else:
             fld, grid = stack, (X, Y, None)
+    # rasters stored north-up (rows running north to south) or mirrored: one or both coordinate axes descend, field flipped with them -
+    # the cells, their values and their area are the same
+    orient = str(rng.choice(["as_is", "as_is", "y_descending", "x_descending", "both_descending"]))
+    if orient != "as_is":
+        ax_ = {"y_descending": (-2,), "x_descending": (-1,), "both_descending": (-2, -1)}[orient]
+        fld = np.flip(fld, axis=ax_).copy()
+
+        def _fl(c_):
+            if c_ is None:
+                return None
+            c_ = np.asarray(c_)
+            if c_.ndim == 1:
+                return c_
+            return np.flip(c_, axis=ax_).copy()
+
+        gx_, gy_, gz_ = grid
+        if np.ndim(gx_) == 1:
+            gx_ = gx_[::-1].copy() if -1 in ax_ else gx_
+            gy_ = gy_[::-1].copy() if -2 in ax_ else gy_
+            grid = (gx_, gy_, gz_)
+        else:
+            grid = (_fl(gx_), _fl(gy_), _fl(gz_))
     cell = abs(x1[1] - x1[0]) * abs(y1[1] - y1[0])
     ps = sorted(set([1.0, 1e-9, 0.5, 0.8] + [float(x) for x in rng.uniform(0, 1, size=4)] + [float(rng.uniform(0.99, 1.0))]))
     prev = None
@@ -339,7 +378,7 @@ def run_case(case):
                     viol.append({"what": "percentile_not_scale_covariant", "p": p, "s": s, "level": (lev, lev2), "area": (area, area2),
                                  "slack": slack})
     nontriv = len(np.unique(f[f > 0])) >= 2
-    b = {f"field:{fkind}": 1, f"base:{gkind}": 1, f"form:{form}": 1, ("g_tie_free" if tie_free else "g_with_ties"): 1}
+    b = {f"field:{fkind}": 1, f"base:{gkind}": 1, f"form:{form}": 1, f"raster_orientation:{orient}": 1, ("g_tie_free" if tie_free else "g_with_ties"): 1}
     return {"evals": counters["get_source_area_calls"] + counters["percentile_calls"], "nontrivial": bool(nontriv),
             "sig": f"{fkind}|{gkind}|{f.shape}|{form}|{case['idx']}", "buckets": b, "resid": resid, "counters": counters,
             "violations": viol,
